@@ -567,8 +567,8 @@ fn build_program(w: &Workload) -> Module {
     inner.cards.push(Card::set_global_var("out_t1", Card::read_var("tbl1")));
     inner.cards.push(Card::set_global_var("out_t3", Card::read_var("tbl3")));
     inner.cards.push(Card::return_card(Card::scalar_int(5)));
-    // ClosureCapture needs frame offset 0: then the calls are made from main directly
-    let need_main = matches!(w.reentry.as_ref().map(|r| &r.callee), Some(Callee::ClosureCapture | Callee::FailsLeaky(_)));
+    // closures are created at any frame offset (fix 58b28ea made their captures frame-relative)
+    let need_main = false;
     let depth = if need_main { 0 } else { w.depth };
     let mut main = Function::default();
     for i in 0..(if need_main { 0 } else { w.pad }) {
